@@ -576,6 +576,18 @@ pub fn run(run: &Run) {
         }
     }
     run.set("jobs", json!(jobs.len()));
+    // one actual execution, written out
+    if let Some((sc, _, _)) = jobs.iter().find(|(sc, d, _)| *d == 0 && sc.items.len() == 2 && sc.client_chunk == 1) {
+        if let Ok(mut sys) = Sys::new(sc.clone()) {
+            while let Some(a) = sys.enabled().first().cloned() {
+                sys.step(a, None);
+                if sys.steps > 10_000 {
+                    break;
+                }
+            }
+            run.sample(json!({"scenario": format!("{:?}", sc), "default_schedule": sys.trace, "verdict": format!("{:?}", sys.verdict().is_ok())}));
+        }
+    }
     let by_dev: [AtomicU64; 3] = [AtomicU64::new(0), AtomicU64::new(0), AtomicU64::new(0)];
     jobs.par_iter().for_each(|(sc, dev, mode)| {
         let ex = Explorer { execs: &execs, steps: &steps, max_steps: 400_000 };
